@@ -12,7 +12,7 @@ Proof. exact stale_two_holders. Qed.
 
 (* ... and on the way process 2 deletes the lock file of the running holder 1 *)
 Theorem C12_foreign_removal_refuted :
-  exists w w', exec w_stale (firstn 9 sched_stale) = Some w /\ exec1 w (Step 2) = Some w' /\
+  exists w w', exec w_stale (firstn 8 sched_stale) = Some w /\ exec1 w (Step 2) = Some w' /\
                lock w = Some (CValid 1 1000) /\ in_critical w = [1] /\ lock w' = None.
 Proof. exact stale_foreign_removal. Qed.
 
